@@ -66,7 +66,23 @@ CHECKS["C05"] = dict(
     tech="Coq proof (structural induction) for evaluation + regenerated precedence table + differential correspondence for parsing",
     ref="3 C05")
 
+CHECKS["C17"] = dict(
+    text="Partial by nature. Theorems C17_history / C17_order_irrelevant (Props/C17.v): in the model a build is a function of the "
+         "source alone - whatever was built before or after, the result of a source is build_str of that source (induction over the "
+         "history). The content lies in the ties: (1) source scan on every run: the only static/thread-local/lazy/atomic/unsafe item "
+         "in /repo/src is the immutable DEVICES table and no hash map is iterated; (2) correspondence of the functional model with "
+         "the code; (3) every source built alone in a fresh process, after and before all others in one process and on 8 concurrent "
+         "threads in different rotations - all observations equal.",
+    note=BASE + " Thread schedules are explored, not proved; CommonContext is Rc<RefCell> (!Send) - a type-system argument recorded as an "
+         "assumption. Working directory and HOME are inputs.",
+    tech="Coq proof over a purely functional model + static source scan + history/thread differential runs",
+    ref="3 C17")
+
 NOT_APPLICABLE = {}
+IN_PROGRESS = ("machinery built and green on the current tree (./check %s: model-vs-implementation correspondence + oracle search + "
+               "kernel-checked examples); not claimed until its unbounded theorem is in Props/%s.v")
+for _p in ("C02", "C06", "C08", "C09", "C10", "C12", "C13", "C14", "C15", "C16"):
+    NOT_APPLICABLE[_p] = IN_PROGRESS % (_p, _p)
 
 PENDING = ("claimed in DESIGN.md, machinery not built yet in this commit; listed here so that nothing unbuilt is claimed "
            "(technique applies - see DESIGN.md section 3)")
